@@ -9,9 +9,10 @@ git -C /repo worktree add -q --detach $WT HEAD || exit 2
 demo() {
   if [ -f $D/demo_test.go ]; then
     PKGDIR=$(grep -m1 -o 'DEMO_DIR=[a-z/_.]*' $D/README.md 2>/dev/null | cut -d= -f2); PKGDIR=${PKGDIR:-.}
+    NEWDIR=; [ -d $WT/$PKGDIR ] || { NEWDIR=1; mkdir -p $WT/$PKGDIR; }
     cp $D/demo_test.go $WT/$PKGDIR/zz_seed_demo_test.go
     (cd $WT/$PKGDIR && go test -vet=off -count=${DEMO_COUNT:-1} -run "$(grep -o '^func Test[A-Za-z0-9_]*' $D/demo_test.go | sed 's/func //' | paste -sd'|')" . 2>&1 | tail -3)
-    rm -f $WT/$PKGDIR/zz_seed_demo_test.go
+    rm -f $WT/$PKGDIR/zz_seed_demo_test.go; [ -n "$NEWDIR" ] && rm -rf $WT/$PKGDIR
   elif [ -f $D/demo/main.go ]; then
     mkdir -p $WT/zzdemo && cp $D/demo/*.go $WT/zzdemo/ && (cd $WT && go run ./zzdemo 2>&1 | tail -3; echo "exit=$?"); rm -rf $WT/zzdemo
   else
